@@ -23,6 +23,7 @@ import Knut.Driver.C09Cmd
 import Knut.Driver.C02
 import Knut.Driver.GoSemFmt
 import Knut.Driver.GoSemBean
+import Knut.Driver.GoSemFloat
 /-! Line-protocol driver over the executable model: one request per line (`op field*`), one answer line.
 Each property contributes a handler module `Knut/Driver/<X>.lean`; add it to `handlers`. -/
 open Knut Knut.Wire
@@ -52,7 +53,8 @@ def handlers : List (List String → Option String) := [
   Knut.Driver.C09Cmd.handle,
   Knut.Driver.C02.handle,
   Knut.Driver.GoSemFmt.handle,
-  Knut.Driver.GoSemBean.handle
+  Knut.Driver.GoSemBean.handle,
+  Knut.Driver.GoSemFloat.handle
 ]
 
 def handle (fields : List String) : String :=
